@@ -19,7 +19,7 @@ import NeumannModel.Durable.Model
   live-facing (records are kept with a private encoding; only counts are compared):
     open <immediate|manual|batched:N> <maxsize|0>
     put K B E / del K / sync / get K / image
-    ckpt_snapshot <name> / ckpt_marker <id> / ckpt_truncate
+    ckpt_sync / ckpt_snapshot <name> / ckpt_marker <id> / ckpt_truncate   (the four checkpoint steps)
 -/
 open Neumann Neumann.Proto Neumann.FramedLog Neumann.Durable
 
@@ -207,6 +207,9 @@ def durStep (st : DState) (line : String) : DState × String :=
       | some k => (st, match get st.sys.mem k with | some v => "some " ++ showVal v | none => "none")
       | none => bad
   | ["image"] => (st, image st.sys.mem)
+  | ["ckpt_sync"] =>
+      let st2 := { st with sys := st.sys.ckptSync }
+      (st2, "ok " ++ walInfo st2)
   | ["ckpt_snapshot", name] =>
       let sy := st.sys.ckptSnapshot
       ({ st with sys := sy, snaps := aset st.snaps name st.sys.mem }, "ok")
